@@ -45,7 +45,7 @@ mod k {
         assert!(w >= -180.0 && w <= 180.0, "C20.hourangle.range");
         // solar noon is 12.5 in this convention (hour centres), 15 degrees per hour, mornings positive
         assert!(hourangle_from_tsol(12.5) == 0.0, "C20.hourangle.noon");
-        if t <= 12.5 {
+        if t >= 0.5 && t <= 12.5 {
             assert!(w >= 0.0, "C20.hourangle.sign");
         }
     }
